@@ -434,8 +434,11 @@ def spot_check(check_id, tier, seed, legs, results):
     if not picks:
         return None
     env = dict(os.environ)
-    env['DSIM_HASHSEED'] = '12345'
-    env['PYTHONHASHSEED'] = '12345'
+    # Hypothesis' generation order depends on the interpreter hash seed, so the model engine is replayable per seed only under
+    # the pinned PYTHONHASHSEED=0 (its replay files, plain op lists, do not depend on it); everything else is compared under 12345
+    hs = '0' if any(legs[li].get('hashseed_pinned') for li, _ in picks) else '12345'
+    env['DSIM_HASHSEED'] = hs
+    env['PYTHONHASHSEED'] = hs
     arg = json.dumps(dict(check=check_id, tier=tier, seed=seed, picks=picks))
     try:
         p = subprocess.run([sys.executable, os.path.join(ROOT, 'dsim_main.py'), 'unit-digests', arg], env=env, capture_output=True, text=True, timeout=900)
@@ -447,7 +450,7 @@ def spot_check(check_id, tier, seed, legs, results):
         return 'fresh-interpreter spot check produced no digests: %s' % (p.stdout[-300:] + p.stderr[-300:])
     for (li, idx), dg in zip(picks, got):
         if results[(li, idx)]['digests'] != dg:
-            return 'unit %s/%d: digests differ between this process and a fresh interpreter with PYTHONHASHSEED=12345' % (legs[li]['name'], idx)
+            return 'unit %s/%d: digests differ between this process and a fresh interpreter' % (legs[li]['name'], idx)
     return None
 
 
